@@ -1,11 +1,11 @@
 package h
 
 import (
-	"verif/sim/simfs"
 	"encoding/json"
 	"fmt"
 	"os"
 	"testing"
+	"verif/sim/simfs"
 
 	"verif/sim/simrt"
 )
